@@ -287,6 +287,168 @@ def h_own_write_version(d: int, wake: bool, wake_at: int, second_fails: bool) ->
     return vkopf.verdict(ok)
 
 
+# --------------------------------------------------------------------------------------------------- H4
+class _Log(list):
+    """The server's change log; every append is stamped with the virtual time and wakes the watch stream."""
+    def __init__(self, clock):
+        super().__init__()
+        self.times, self.clock, self.new = [], clock, None
+
+    def append(self, item):
+        super().append(item)
+        self.times.append(self.clock())
+        if self.new is not None:
+            self.new.set()
+
+
+def run_composed(T, idle, lags, f_at, lat_a, lat_b, nf=1, f2_gap=0, ties=(), with_daemon=False):
+    """The REAL watcher + worker + process_resource_event + patching over the FakeServer; the watch stream is an ORDERED
+    reader of the server's change log that delivers entry i not before `write time + lags[i]` (and never before entry i-1).
+    Every API request takes lat_a before and lat_b after the server applies it. A foreign writer edits the spec at f_at."""
+    from vkopf.loop import configure_storage
+    w = World(base_body(), tmode='symbolic')
+    configure_storage(w.settings, 'status')
+    loop = w.loop
+    w.settings.persistence.consistency_timeout = T
+    w.settings.queueing.idle_timeout = idle
+    w.server.log = _Log(lambda: loop._now)
+    trace = []          # ('run', t, view_version, kind) and ('patch', t_returned, version) in their real order
+    raw = []            # raw-event handler: (t, version)
+
+    @kopf.on.event(PLURAL, id='ev', registry=w.registry)
+    async def ev(body, **_):
+        raw.append((loop.time(), int(body['metadata']['resourceVersion'])))
+
+    @kopf.on.create(PLURAL, id='c', registry=w.registry)
+    async def c(body, **_):
+        trace.append(('run', loop.time(), int(body['metadata']['resourceVersion']), 'create'))
+
+    @kopf.on.update(PLURAL, id='u', registry=w.registry)
+    async def u(body, **_):
+        trace.append(('run', loop.time(), int(body['metadata']['resourceVersion']), 'update'))
+
+    orig_patch = w.server.patch
+
+    async def slow_patch(url, **kw):
+        if lat_a > 0:
+            await asyncio.sleep(lat_a)
+        r = await orig_patch(url, **kw)
+        if lat_b > 0:
+            await asyncio.sleep(lat_b)
+        trace.append(('patch', loop.time(), int(r['metadata']['resourceVersion'])))
+        return r
+    w.server.patch = slow_patch
+    initial = {'type': 'ADDED', 'object': __import__('copy').deepcopy(w.server.obj)}
+    deliveries = []
+
+    async def fake_stream(**_):
+        log = w.server.log
+        log.new = asyncio.Event()
+        deliveries.append((loop.time(), int(initial['object']['metadata']['resourceVersion'])))
+        yield initial
+        i = 0
+        while True:
+            while i >= len(log):
+                log.new.clear()
+                await log.new.wait()
+            rv, snap = log[i]
+            due = log.times[i] + lags[i if i < len(lags) else len(lags) - 1]
+            if due > loop.time():
+                await asyncio.sleep(due - loop.time())
+            deliveries.append((loop.time(), rv))
+            yield {'type': 'MODIFIED', 'object': __import__('copy').deepcopy(snap)}
+            i += 1
+
+    async def processor(*, raw_event, **kw):
+        return await w.process(raw_event['type'], raw_event['object'], **kw)
+
+    def foreign(k):
+        def mutate(obj):
+            obj['spec']['x'] = 2 + k
+        return mutate
+    lag_sum = 0
+    for l in lags:
+        lag_sum = lag_sum + l
+    horizon = f_at + f2_gap + lag_sum + 6 * (lat_a + lat_b) + 3 * T + 3 * idle + 10
+    w.settings.queueing.exit_timeout = 1
+
+    async def main():
+        orig = queueing.watching.infinite_watch
+        queueing.watching.infinite_watch = fake_stream
+        try:
+            task = asyncio.create_task(queueing.watcher(namespace=None, settings=w.settings, resource=w.resource, processor=processor))
+            loop.call_later(f_at, w.server.write, foreign(0))
+            if nf > 1:
+                loop.call_later(f_at + f2_gap, w.server.write, foreign(1))
+            await asyncio.sleep(horizon)
+            task.cancel()
+            try:
+                await task
+            except asyncio.CancelledError:
+                pass
+            await cancel_all_others()
+        finally:
+            queueing.watching.infinite_watch = orig
+    w.run(main(), ties=ties, max_steps=20_000)
+    return trace, raw, deliveries, w
+
+
+def h_composed(T: int, idle: int, lag0: int, lag1: int, lag2: int, lag3: int, f_at: int, f2_gap: int, lat_a: int, lat_b: int,
+               t0: bool, t1: bool, t2: bool) -> bool:
+    """
+    pre: T >= 0 and idle >= 1 and lag0 >= 0 and lag1 >= 0 and lag2 >= 0 and lag3 >= 0 and f_at >= 0 and f2_gap >= 0
+    pre: lat_a >= 0 and lat_b >= 0
+    post: _ == True
+    """
+    vkopf.begin_path()
+    c = vkopf.cell()
+    nf = c.get('nf', 1)
+    zero = c.get('zero', [])          # instants pinned to 0 in this cell (the regime), the rest stays symbolic
+    vals = {'lag0': lag0, 'lag1': lag1, 'lag2': lag2, 'lag3': lag3, 'lat_a': lat_a, 'lat_b': lat_b, 'f_at': f_at, 'f2_gap': f2_gap}
+    for z in zero:
+        vals[z] = 0
+    if c.get('same_lag'):
+        vals['lag1'] = vals['lag2'] = vals['lag3'] = vals['lag0']
+    if c.get('idle') is not None:
+        idle = c['idle']
+    ties = [t0, t1, t2][:c.get('ties', 3)]
+    try:
+        trace, raw, deliveries, w = run_composed(T, idle, [vals['lag0'], vals['lag1'], vals['lag2'], vals['lag3']], vals['f_at'],
+                                                 vals['lat_a'], vals['lat_b'], nf=nf, f2_gap=vals['f2_gap'], ties=ties)
+    except (Deadlock, Diverged, Livelock):
+        return vkopf.verdict(False)
+    ok = True
+    patches = []
+    for item in trace:
+        if item[0] == 'patch':
+            patches.append((item[1], item[2]))
+            continue
+        _, t, v, kind = item
+        for (tp, p) in patches:
+            # a change handler that starts after the operator's own write returned: on a view that includes the write,
+            # or not sooner than T after it
+            if v < p:
+                vkopf.witness('stale_view_after_timeout')
+                if not (t >= tp + T):
+                    ok = False
+            else:
+                vkopf.witness('consistent_view')
+    # raw-event handlers are not delayed: every delivered event is seen at its delivery instant unless the worker was busy
+    # (then at the end of the previous processing); here only: every delivered version is seen, in order, exactly once
+    if [v for _, v in raw] != [v for _, v in deliveries]:
+        ok = False
+    # quiescence: the final object is handled (no pending change) -- the barrier delays, it never drops
+    final = w.server.obj
+    import json as _json
+    lhc = (final.get('status', {}).get('kopf', {}) or {}).get('last-handled-configuration')
+    if lhc is None or _json.loads(lhc).get('spec') != final['spec']:
+        ok = False
+    runs = [i for i in trace if i[0] == 'run']
+    if not runs or runs[0][3] != 'create':
+        ok = False
+    return vkopf.verdict(ok)
+
+
 def lemma(cell=None):
     """H3: the composition lemma, discharged by z3 (engine 'smt')."""
     import time
@@ -331,4 +493,11 @@ def obligations():
     obs += split(Ob('h_step', {}, timeout=1500, path_timeout=200, tiers=('thorough',)), remaining=B, deleting=B, has_ct=B, handled=B, has_pressure=B)
     obs.append(Ob('h_own_write_version', {}, timeout=900, path_timeout=200, twins=['wrote']))
     obs.append(Ob('lemma', {}, engine='smt', timeout=60))
+    # H4: the composed run; a cell pins some instants to 0 (the regime), the others stay unbounded symbolic integers
+    obs.append(Ob('h_composed', {'nf': 1, 'same_lag': True, 'idle': 1, 'ties': 0, 'zero': ['f_at', 'lat_b', 'f2_gap']}, tiers=('quick',), timeout=900, path_timeout=200,
+                  twins=['stale_view_after_timeout', 'consistent_view']))
+    for zero in (['lat_a', 'lat_b', 'f2_gap'], ['f_at', 'lat_a', 'f2_gap'], ['lat_b', 'f2_gap', 'lag1', 'lag2', 'lag3'],
+                 ['f_at', 'f2_gap', 'lag0', 'lag2', 'lag3']):
+        obs.append(Ob('h_composed', {'nf': 1, 'zero': zero}, tiers=('thorough',), timeout=900, path_timeout=200))
+    obs.append(Ob('h_composed', {'nf': 2, 'same_lag': True, 'zero': ['f_at', 'lat_b']}, tiers=('thorough',), timeout=900, path_timeout=200))
     return obs
